@@ -22,6 +22,7 @@ def run(ctx, replay=None):
               dict(shape="star", max_env=2, flags="m,c,o", faults=True),
               dict(shape="two", max_env=2, flags="m,c", faults=True),
               dict(shape="deep", max_env=2, flags="m,c", faults=True),
+              dict(shape="inherit", max_env=2, flags="m,c", faults=True, env="EditProfile,Edit,DeleteArt,SetProfile"),
               dict(shape="deep", max_env=0, flags="m,c,o,e", extra="a", faults=True, random_walks=20000, walk_len=12),
               dict(shape="chain", max_env=0, flags="m,c,o,e", extra="a", faults=True, random_walks=40000, walk_len=10),
               dict(shape="chain", max_env=2, flags="m,c", faults=True, env="SetIssuer,Edit,DeleteArt,StripKey"),
